@@ -51,6 +51,11 @@ type c13mid struct {
 
 func (m *c13mid) id() uint32 { m.nextID++; return m.nextID }
 
+// c13midLeft: placements the generators may still make.  Each one costs one or two dumps of ALL goroutines, and
+// every world leaves goroutines behind (the mailbox goroutines of its objects never end): the thorough tier gives
+// each generator a budget, spent in its first schedules.
+var c13midLeft = 1 << 30
+
 const c13fillers = 48 // more than the 10 + 1 + 10 + 1 that are needed with the pinned capacities
 
 func (w *c13world) midInit() bool {
@@ -118,7 +123,7 @@ func c13midInside() bool {
 
 // midOK: mboxMid can be played on connection c now.
 func (w *c13world) midOK(c int) bool {
-	if w.dead || w.emitBusy || !w.driven {
+	if w.dead || w.emitBusy || !w.driven || c13midLeft <= 0 {
 		return false
 	}
 	if _, busy := w.pendingReply(); busy {
@@ -154,6 +159,7 @@ func (w *c13world) mboxMid(c int, inside func()) bool {
 		w.mbox(c)
 		return false
 	}
+	c13midLeft--
 	m, cl := w.mid, w.clients[c]
 	sid, sid2 := w.sid, m.sid2
 	aux := m.aux.c
